@@ -81,3 +81,9 @@ pub open spec fn zw_sink_dev<W: Write + io::Seek>(w: &ZipWriter<W>) -> bool { !(
 pub open spec fn zw_sink_fault<W: Write + io::Seek>(w: &ZipWriter<W>) -> bool { !(w.inner is Closed) && gzw_sink(w.inner).g_fault() }
 // an (unencrypted) device sink that has never reported a failure
 pub open spec fn zw_clean<W: Write + io::Seek>(w: &ZipWriter<W>) -> bool { zw_sink_dev(w) && !zw_sink_fault(w) }
+// ---- C12/C13/C14 over whole call sequences, stated per operation: once an entry has been closed (finish_file marks it:
+// writing_raw) or is a raw copy / the last entry of an appended archive, its record is never rewritten by any later
+// operation.  Together with `earlier_entries_untouched` this is an induction over call sequences of any length.
+pub open spec fn zw_frozen_kept<W: Write + io::Seek>(a: &ZipWriter<W>, b: &ZipWriter<W>) -> bool {
+    a.writing_raw && a.files@.len() > 0 ==> b.files@.len() >= a.files@.len() && b.files@[a.files@.len() - 1] == a.files@.last()
+}
